@@ -30,6 +30,11 @@ def generate(seed, tier):
     if name == 'C11':
         # apply a stall at a seeded packet index (no probe run needed for a differential check)
         st = sub['stall']
+        if scn.get('transport') == 'tcp':
+            # the two TCP transports are different code with their own wake-up order: which timeout fires first when a filler
+            # packet and a deadline coincide is not comparable; the stall pairs run over the shared in-memory transport
+            scn['transport'] = 'mem'
+            scn.pop('tcp', None)
         scn['device']['stall'] = {'after_pkts': st['pick'] % 12, 'kind': st['kind'], 'interval': 0.3, 'cmdword': st['cmdword']}
         extra['fault'] = True
     elif name == 'C12':
